@@ -830,6 +830,12 @@ pub fn run(args: &Args) {
     for (t, _) in DIRECTED_BAD.iter() {
         pipeline_case(&mut sink, &dict, "", t, "円", None, true, "directed_bad", false);
     }
+    // minimised past failure (fixed in the repository): malformed in itself AND a trailing separator
+    for t in ["十55,", "9十五522二三.", "十55.", "百1234,"] {
+        for post in ["", "円"] {
+            pipeline_case(&mut sink, &dict, "", t, post, None, true, "corpus_malformed_plus_trailing_separator", false);
+        }
+    }
     for _ in 0..args.n(350, 6000) {
         let n = gen_wellformed(&mut rng);
         if n.text.contains("六三四") || n.text.chars().count() > 200 {
